@@ -235,6 +235,11 @@ func main() {
 		os.Exit(cmdCheck(os.Args[2:]))
 	case "dump":
 		cmdDump(os.Args[2:])
+	case "replay":
+		if len(os.Args) < 3 {
+			fatalf("usage: govc replay <replay file>")
+		}
+		os.Exit(cmdReplay(os.Args[2]))
 	case "list":
 		l := load()
 		ub := l.bind()
